@@ -214,3 +214,165 @@ Theorem C02_bmc_model3_no_missed_counterexample :
       bmc_model3 solver_sat sy nm individually k_max <> BmcSuccess.
 Proof. exact bmc_model3_no_miss. Qed.
 Print Assumptions C02_bmc_model3_no_missed_counterexample.
+
+(** ** the whole of [bmc]: every parameter (Model/BmcWitFull.v, [bmc_model_full])
+
+    [bmc_model_full sv sy nm check_constraints individually k_max] models bmc.rs with the extra
+    (check-sat) of [check_constraints], both checking modes, the solver answers unknown / error, failing
+    commands, the witness extraction and [assert!(k_max <= 2000)] (see Props/C03.v).  Here the solver is
+    the one of the property: "sat" comes with a model, get-value reports its values, "unsat" is right,
+    and it never says unknown, never fails, no command fails, every get-value is answered.
+
+    [exec_at sy j]: some execution of exactly [j] steps from an initial valuation satisfies all
+    constraints at every step (the constraints are "satisfiable up to step j").  Hypotheses on the
+    system as for [C02_bmc_model3_exact], at least one bad state, [k_max <= 2000], and [get_signal_at]
+    does not panic on the constraints and bad states up to the bound (a computation).
+
+    Then the result is EXACTLY determined, for [check_constraints] on or off and both modes:
+      - [FFail j w] (for some witness [w], see C03) iff [j <= k_max] is the least depth at which a bad
+        state is reachable - independent of [check_constraints];
+      - [FSuccess] iff no bad state is reachable within [k_max] steps (and, with [check_constraints],
+        the constraints are satisfiable up to every step [<= k_max]);
+      - [FPanic] iff [check_constraints] is on and at some step [j <= k_max] the constraints are not
+        satisfiable up to [j] while no bad state is reachable before: the documented
+        [assert_eq!(res, Sat, "Found unsatisfiable constraints in cycle j")] - a crash in place of the
+        verdict Success that the same call gives with [check_constraints = false];
+      - never Unknown, never an error. *)
+From Patronus Require Import BmcWitFull BmcWitFullProofs BmcFullExact.
+Theorem C02_bmc_full_exact :
+  forall (EM : Type) (sv : solver EM),
+    ((forall sc asserts assumps m, sv_check sv sc asserts assumps = SSat m -> is_model sc asserts assumps m) /\
+     (forall sc m s x, sv_value sv sc m s = GVal x -> x = val_of (script_eval m sc) s)) ->
+    (forall sc asserts assumps, sv_check sv sc asserts assumps = SUnsat -> ~ exists m, is_model sc asserts assumps m) ->
+    ((forall sc a b, sv_check sv sc a b <> SUnknown) /\ (forall sc a b e, sv_check sv sc a b <> SErr e) /\
+     (forall sc m s e, sv_value sv sc m s <> GErr e) /\ (forall p, sv_fault sv p = None)) ->
+    forall (sy : sys) (nm : expr -> string),
+      sys_wf sy = true -> nodup_exprs (s_inputs sy) = true ->
+      names_ok (enc_new sy nm) = true -> init_deps_acyclic sy -> s_bads sy <> [] ->
+    forall (k_max : nat), (k_max <= 2000)%nat ->
+      (forall k, (k <= k_max)%nat ->
+         signals_at (enc_new sy nm) (s_constraints sy) (N.of_nat k) <> None /\
+         signals_at (enc_new sy nm) (s_bads sy) (N.of_nat k) <> None) ->
+    forall (check_constraints individually : bool),
+      let res := bmc_model_full EM sv sy nm check_constraints individually k_max in
+      (forall j, (exists w, res = FFail (N.of_nat j) w) <->
+                 (j <= k_max)%nat /\ reach_at sy j /\ forall m, (m < j)%nat -> ~ reach_at sy m) /\
+      (res = FSuccess <-> forall j, (j <= k_max)%nat -> ~ reach_at sy j /\ (check_constraints = true -> exec_at sy j)) /\
+      (res = FPanic <-> check_constraints = true /\
+                        exists j, (j <= k_max)%nat /\ ~ exec_at sy j /\ forall m, (m < j)%nat -> ~ reach_at sy m) /\
+      (forall k w, res = FFail k w -> exists j, k = N.of_nat j) /\
+      res <> FUnknown /\ (forall e, res <> FErr e).
+Proof. exact bmc_full_exact. Qed.
+Print Assumptions C02_bmc_full_exact.
+
+(** "reports a failure if and only if some execution reaches a bad state within k steps" *)
+Theorem C02_bmc_full_fail_iff_reachable :
+  forall (EM : Type) (sv : solver EM),
+    ((forall sc asserts assumps m, sv_check sv sc asserts assumps = SSat m -> is_model sc asserts assumps m) /\
+     (forall sc m s x, sv_value sv sc m s = GVal x -> x = val_of (script_eval m sc) s)) ->
+    (forall sc asserts assumps, sv_check sv sc asserts assumps = SUnsat -> ~ exists m, is_model sc asserts assumps m) ->
+    ((forall sc a b, sv_check sv sc a b <> SUnknown) /\ (forall sc a b e, sv_check sv sc a b <> SErr e) /\
+     (forall sc m s e, sv_value sv sc m s <> GErr e) /\ (forall p, sv_fault sv p = None)) ->
+    forall (sy : sys) (nm : expr -> string),
+      sys_wf sy = true -> nodup_exprs (s_inputs sy) = true ->
+      names_ok (enc_new sy nm) = true -> init_deps_acyclic sy -> s_bads sy <> [] ->
+    forall (k_max : nat), (k_max <= 2000)%nat ->
+      (forall k, (k <= k_max)%nat ->
+         signals_at (enc_new sy nm) (s_constraints sy) (N.of_nat k) <> None /\
+         signals_at (enc_new sy nm) (s_bads sy) (N.of_nat k) <> None) ->
+    forall (check_constraints individually : bool),
+      (exists k w, bmc_model_full EM sv sy nm check_constraints individually k_max = FFail k w) <->
+      (exists j, (j <= k_max)%nat /\ reach_at sy j).
+Proof. exact bmc_full_fail_iff_reachable. Qed.
+Print Assumptions C02_bmc_full_fail_iff_reachable.
+
+(** "the verdict does not depend on whether bad states are checked individually or jointly" (the
+    witnesses of the two modes may differ: the solver is asked different questions) *)
+Theorem C02_bmc_full_modes_agree :
+  forall (EM : Type) (sv : solver EM),
+    ((forall sc asserts assumps m, sv_check sv sc asserts assumps = SSat m -> is_model sc asserts assumps m) /\
+     (forall sc m s x, sv_value sv sc m s = GVal x -> x = val_of (script_eval m sc) s)) ->
+    (forall sc asserts assumps, sv_check sv sc asserts assumps = SUnsat -> ~ exists m, is_model sc asserts assumps m) ->
+    ((forall sc a b, sv_check sv sc a b <> SUnknown) /\ (forall sc a b e, sv_check sv sc a b <> SErr e) /\
+     (forall sc m s e, sv_value sv sc m s <> GErr e) /\ (forall p, sv_fault sv p = None)) ->
+    forall (sy : sys) (nm : expr -> string),
+      sys_wf sy = true -> nodup_exprs (s_inputs sy) = true ->
+      names_ok (enc_new sy nm) = true -> init_deps_acyclic sy -> s_bads sy <> [] ->
+    forall (k_max : nat), (k_max <= 2000)%nat ->
+      (forall k, (k <= k_max)%nat ->
+         signals_at (enc_new sy nm) (s_constraints sy) (N.of_nat k) <> None /\
+         signals_at (enc_new sy nm) (s_bads sy) (N.of_nat k) <> None) ->
+    forall (check_constraints : bool),
+      let r1 := bmc_model_full EM sv sy nm check_constraints true k_max in
+      let r2 := bmc_model_full EM sv sy nm check_constraints false k_max in
+      (forall j, (exists w, r1 = FFail (N.of_nat j) w) <-> (exists w, r2 = FFail (N.of_nat j) w)) /\
+      (r1 = FSuccess <-> r2 = FSuccess) /\ (r1 = FPanic <-> r2 = FPanic).
+Proof. exact bmc_full_modes_agree. Qed.
+Print Assumptions C02_bmc_full_modes_agree.
+
+(** exactly when [bmc] panics (instead of returning a verdict) under a perfect solver *)
+Theorem C02_bmc_full_check_constraints_panic_iff :
+  forall (EM : Type) (sv : solver EM),
+    ((forall sc asserts assumps m, sv_check sv sc asserts assumps = SSat m -> is_model sc asserts assumps m) /\
+     (forall sc m s x, sv_value sv sc m s = GVal x -> x = val_of (script_eval m sc) s)) ->
+    (forall sc asserts assumps, sv_check sv sc asserts assumps = SUnsat -> ~ exists m, is_model sc asserts assumps m) ->
+    ((forall sc a b, sv_check sv sc a b <> SUnknown) /\ (forall sc a b e, sv_check sv sc a b <> SErr e) /\
+     (forall sc m s e, sv_value sv sc m s <> GErr e) /\ (forall p, sv_fault sv p = None)) ->
+    forall (sy : sys) (nm : expr -> string),
+      sys_wf sy = true -> nodup_exprs (s_inputs sy) = true ->
+      names_ok (enc_new sy nm) = true -> init_deps_acyclic sy -> s_bads sy <> [] ->
+    forall (k_max : nat), (k_max <= 2000)%nat ->
+      (forall k, (k <= k_max)%nat ->
+         signals_at (enc_new sy nm) (s_constraints sy) (N.of_nat k) <> None /\
+         signals_at (enc_new sy nm) (s_bads sy) (N.of_nat k) <> None) ->
+    forall (check_constraints individually : bool),
+      bmc_model_full EM sv sy nm check_constraints individually k_max = FPanic <->
+      check_constraints = true /\
+      exists j, (j <= k_max)%nat /\ ~ exec_at sy j /\ forall m, (m < j)%nat -> ~ reach_at sy m.
+Proof. exact bmc_full_panic_iff. Qed.
+Print Assumptions C02_bmc_full_check_constraints_panic_iff.
+
+(** a counterexample is reported at the same depth with and without [check_constraints] *)
+Theorem C02_bmc_full_fail_independent_of_check_constraints :
+  forall (EM : Type) (sv : solver EM),
+    ((forall sc asserts assumps m, sv_check sv sc asserts assumps = SSat m -> is_model sc asserts assumps m) /\
+     (forall sc m s x, sv_value sv sc m s = GVal x -> x = val_of (script_eval m sc) s)) ->
+    (forall sc asserts assumps, sv_check sv sc asserts assumps = SUnsat -> ~ exists m, is_model sc asserts assumps m) ->
+    ((forall sc a b, sv_check sv sc a b <> SUnknown) /\ (forall sc a b e, sv_check sv sc a b <> SErr e) /\
+     (forall sc m s e, sv_value sv sc m s <> GErr e) /\ (forall p, sv_fault sv p = None)) ->
+    forall (sy : sys) (nm : expr -> string),
+      sys_wf sy = true -> nodup_exprs (s_inputs sy) = true ->
+      names_ok (enc_new sy nm) = true -> init_deps_acyclic sy -> s_bads sy <> [] ->
+    forall (k_max : nat), (k_max <= 2000)%nat ->
+      (forall k, (k <= k_max)%nat ->
+         signals_at (enc_new sy nm) (s_constraints sy) (N.of_nat k) <> None /\
+         signals_at (enc_new sy nm) (s_bads sy) (N.of_nat k) <> None) ->
+    forall (individually : bool) (j : nat),
+      (exists w, bmc_model_full EM sv sy nm true individually k_max = FFail (N.of_nat j) w) <->
+      (exists w, bmc_model_full EM sv sy nm false individually k_max = FFail (N.of_nat j) w).
+Proof. exact bmc_full_fail_independent_of_cc. Qed.
+Print Assumptions C02_bmc_full_fail_independent_of_check_constraints.
+
+(** Non-vacuity.  The enumerating solver never says unknown and never fails (that its "unsat" is right is
+    the completeness of the enumeration, not proved; the runs below agree with the theorems).
+    [exp_sys b]: state c:2 init 0 next c + 1; constraint not (c == 2); bad state c == b.  With b = 3:
+    Success without [check_constraints], the assert_eq! panic with it (bound 5; Success again with bound
+    1, before the constraints become contradictory); with b = 1: Fail at depth 1 for all four parameter
+    combinations. *)
+From Patronus Require Import WitFullExamples.
+Example C02_full_solver_hypotheses_satisfiable :
+  forall EM : Type,
+    ((forall sc asserts assumps m, sv_check (enum_solver EM) sc asserts assumps = SSat m -> is_model sc asserts assumps m) /\
+     (forall sc m s x, sv_value (enum_solver EM) sc m s = GVal x -> x = val_of (script_eval m sc) s)) /\
+    ((forall sc a b, sv_check (enum_solver EM) sc a b <> SUnknown) /\ (forall sc a b e, sv_check (enum_solver EM) sc a b <> SErr e) /\
+     (forall sc m s e, sv_value (enum_solver EM) sc m s <> GErr e) /\ (forall p, sv_fault (enum_solver EM) p = None)).
+Proof. exact enum_solver_sound_total. Qed.
+
+Example C02_bmc_full_example :
+  (sys_wf (exp_sys 3) = true /\ nodup_exprs (s_inputs (exp_sys 3)) = true /\ names_ok (enc_new (exp_sys 3) exp_nm) = true /\
+   exp_signals_ok 3 5 = true /\ exp_signals_ok 1 5 = true) /\
+  (forall ind, bmc_model_full unit (enum_solver unit) (exp_sys 3) exp_nm false ind 5 = FSuccess) /\
+  (forall ind, bmc_model_full unit (enum_solver unit) (exp_sys 3) exp_nm true ind 5 = FPanic) /\
+  (forall ind, bmc_model_full unit (enum_solver unit) (exp_sys 3) exp_nm true ind 1 = FSuccess) /\
+  (forall cc ind, exists w, bmc_model_full unit (enum_solver unit) (exp_sys 1) exp_nm cc ind 5 = FFail 1 w).
+Proof. exact exp_runs. Qed.
